@@ -148,7 +148,9 @@ func c03Random(r *core.Rng, budget int) *xp.Node {
 		}
 		return n
 	case 2:
-		return xp.Fn(core.Pick(r, []string{"not", "number", "string", "boolean", "floor"}), c03Random(r, budget-1))
+		// (string() is left to C01: string(1 div 0) is "Infinity", which the implementation's
+		// number() then reads back as a number — the known C01 finding would show up here)
+		return xp.Fn(core.Pick(r, []string{"not", "number", "boolean", "floor", "ceiling"}), c03Random(r, budget-1))
 	default:
 		l := r.Intn(budget)
 		return xp.Bin(core.Pick(r, c03Ops), c03Random(r, l), c03Random(r, budget-1-l))
